@@ -16,7 +16,7 @@ def run(seed, gmp, rep):
     out = b""
     if world == "c06":
         # one case per process
-        env["GORACE"] = f"log_path={tmp}/race-{seed}-{gmp}-{rep} exitcode=0"
+        env["GORACE"] = f"log_path={tmp}/race-{seed}-{gmp}-{rep} exitcode=0 atexit_sleep_ms=0"
         lines = []
         for i in range(ncases):
             e = ev + f".{i}"
